@@ -213,6 +213,43 @@ func TestGovcStandInSubmit(t *testing.T) {
 			}
 		}
 	}
+	// a per-operation client overrides only its own call: the runtime's own client serves the calls after it
+	{
+		rt := New("example.org", "/api", []string{"http"})
+		answer := func(tag string) http.RoundTripper {
+			return govcTransport(func(r *http.Request) (*http.Response, error) {
+				return &http.Response{StatusCode: 200, Header: http.Header{"Content-Type": {"application/json"}, "X-Via": {tag}}, Body: io.NopCloser(strings.NewReader("{}")), Request: r}, nil
+			})
+		}
+		rt.Transport = answer("runtime")
+		rt.Consumers = map[string]runtime.Consumer{"application/json": runtime.ConsumerFunc(func(rd io.Reader, v interface{}) error { _, err := io.ReadAll(rd); return err })}
+		call := func(c *http.Client) (via string, err error) {
+			defer func() {
+				if p := recover(); p != nil {
+					err = fmt.Errorf("panic: %v", p)
+				}
+			}()
+			_, err = rt.Submit(&runtime.ClientOperation{ID: "op", Method: "GET", PathPattern: "/x", Schemes: []string{"http"}, Client: c,
+				ProducesMediaTypes: []string{"application/json"}, ConsumesMediaTypes: []string{"application/json"},
+				Params: runtime.ClientRequestWriterFunc(func(runtime.ClientRequest, strfmt.Registry) error { return nil }),
+				Reader: runtime.ClientResponseReaderFunc(func(resp runtime.ClientResponse, _ runtime.Consumer) (interface{}, error) {
+					via = resp.GetHeader("X-Via")
+					return nil, nil
+				})})
+			return via, err
+		}
+		for k, c := range []*http.Client{{Transport: answer("operation")}, nil, {Transport: answer("operation")}, nil} {
+			want := "runtime"
+			if c != nil {
+				want = "operation"
+			}
+			via, err := call(c)
+			checks++
+			if err != nil || via != want {
+				t.Fatalf("GOVC-STANDIN-FAIL call %d of a sequence (operation client, none, operation client, none) on one runtime: answered through %q (error %v), want %q", k, via, err, want)
+			}
+		}
+	}
 	// no goroutine of any call is left behind
 	deadline := time.Now().Add(10 * time.Second)
 	for goruntime.NumGoroutine() > before+1 && time.Now().Before(deadline) {
